@@ -1,8 +1,10 @@
 #!/bin/bash
 # run every quick (or $1=thorough) check in sequence; print exit status and wall time per property
 tier=${1:-quick}
+from=${2:-01}
 cd "$(dirname "$0")/.."
 for i in 01 02 03 04 05 06 07 08 09 10 11 12 13 14 15 16 17 18 19 20; do
+  if [ "$i" \< "$from" ]; then continue; fi
   s=$(date +%s.%N)
   out=$(/venv/bin/python -m vf.run C$i --tier $tier 2>&1)
   rc=$?
